@@ -3,7 +3,7 @@ C10  Connection-level socket faults never escape servicing.
 """
 from ..core import CaseTimeout as _CaseTimeout
 import errno
-from .. import netlab, net as netmod
+from .. import netlab, rawpeer, net as netmod
 from ..core import Result, digest
 
 PID = "C10"
@@ -14,7 +14,7 @@ RULE = ("Each case runs a real hio Server/ServerTls with an echo loop and two Cl
         "(ECONNRESET EPIPE ENETRESET ENETUNREACH EHOSTUNREACH ENETDOWN EHOSTDOWN ETIMEDOUT ECONNREFUSED, or SSL EOF for TLS) at "
         "a tape-chosen call index of send / recv (plain: socket level; TLS: SSLSocket level and transport level, which lands in "
         "do_handshake for small indices) on the client side or on the server side, either as the first sign of a connection that is really gone (both ends reset) or as a one-shot failure after which the socket stays usable; or a real peer event: client close (FIN), client "
-        "close with unread data (RST), client vanishing mid-handshake, server-side remoter closed. The thorough tier additionally "
+        "close with unread data (RST), client vanishing mid-handshake, client resetting its connection and at once reconnecting from the same port and dropping that handshake, server-side remoter closed. The thorough tier additionally "
         "sweeps every (errno, op, side, call index < 6, plain/TLS) combination once. Oracle: no service() call raises; the endpoint "
         "that met the fault is marked cutoff - the client right after the service() call in which it fired, on the server side the very remoter whose socket failed - (server-side handshake: aborted; client-side handshake: not connected and cutoff or "
         "closed); the other connection's echo traffic completes within the drain bound. Non-trivial: the fault fired while payload "
@@ -58,8 +58,9 @@ def run_case(tape, tier):
         fault = dict(kind="errno", code=code, side=side, op=op, idx=idx, one_shot=tape.flag("one_shot", 1, 2))
     else:
         tls = tape.flag("tls", 1, 2)
-        kind = ["errno", "errno", "errno", "peer_fin", "peer_rst", "vanish_handshake", "server_closes_remoter"][tape.draw("fault_kind", 7)]
-        if kind == "vanish_handshake" and not tls:
+        kind = ["errno", "errno", "errno", "peer_fin", "peer_rst", "vanish_handshake", "server_closes_remoter",
+                "reset_reconnect_abort"][tape.draw("fault_kind", 8)]
+        if kind in ("vanish_handshake", "reset_reconnect_abort") and not tls:
             kind = "peer_rst"
         fault = dict(kind=kind)
         if kind == "errno":
@@ -181,6 +182,25 @@ def run_case(tape, tier):
                             net.rst(raw.peer)
                             raw.state = "closed"
                             res.faults["peer_rst"] += 1
+                elif fault["kind"] == "reset_reconnect_abort":
+                    # the peer resets its established connection, reconnects from the same port and drops the new TLS
+                    # handshake, all before the server's next service round: the server accepts a connection whose
+                    # address it still holds an (unnoticed dead) established connection for, and the handshake aborts
+                    if c.cs is not None and c.connected:
+                        raw = getattr(c.cs, 'sock', c.cs)
+                        if raw.state == "connected":
+                            net.rst(raw.peer)
+                            raw.state = "closed"
+                            res.faults["peer_rst"] += 1
+                            again = rawpeer.RawClient(net, lab.port, "client0")
+                            again.step()
+                            if again.connected:
+                                again.sock.close()
+                                res.faults["reconnect_from_same_port_then_abort"] += 1
+                    elif c.cs is not None:
+                        # not established yet: the client just goes away (as in vanish_handshake)
+                        lab.as_owner("client0", c.close)
+                        res.faults["client_vanishes_mid_handshake"] += 1
                 elif fault["kind"] == "vanish_handshake":
                     if c.cs is not None and not c.connected:
                         lab.as_owner("client0", c.close)
@@ -261,7 +281,7 @@ def run_case(tape, tier):
                         for s_ in net.sockets:
                             if s_.got_injected and s_.peer is not None and s_.peer.owner in ("client0", "client1"):
                                 affected = int(s_.peer.owner[-1])
-            elif fault["kind"] in ("peer_fin", "peer_rst", "vanish_handshake") and peer_event_done:
+            elif fault["kind"] in ("peer_fin", "peer_rst", "vanish_handshake", "reset_reconnect_abort") and peer_event_done:
                 # the server side remoter of client 0 must be cutoff (or aborted / never created)
                 res.comparisons += 1
                 # remoters the server still holds whose socket's peer belongs to client 0 (a remoter that was
